@@ -25,6 +25,9 @@ SEEDS = [
     "start: items 'y' | block 'z'\nitems: 'a' block | 'b'?\nblock: items\n",
     "start: a NEWLINE\na: ','.b+ a 'x' | 'y'\nb: 'k'?\n",
     "start: a NEWLINE\na: &&(b? a) 'x' | 'y'\nb: 'b'\n",
+    # left recursion through the SEPARATOR of a gather whose element can match nothing
+    "start: a NEWLINE\na: a.('w'*)+ 'x' | 'y'\n",
+    "start: c.('w'?)+ 'z'\nc: start 'q' | 'x'\n",
 ]
 
 PRELUDE = g2c.HEADER + """From Pegen Require Import Analysis.Visitor Analysis.Scc Analysis.Nullable.
